@@ -280,7 +280,7 @@ func (s *syncSim) step() {
 		good := s.chain[head]
 		bad := good
 		bad.Txns = append([]model.Txn{}, good.Txns...)
-		switch t.Pick("forge-kind", 2, 2, 1, 1) {
+		switch t.Pick("forge-kind", 2, 2, 1, 1, 2, 1, 1) {
 		case 0: // same block, signed by somebody else
 			signBlock(&bad, &s.w.forger)
 		case 1: // mutated and re-signed by somebody else
@@ -290,6 +290,24 @@ func (s *syncSim) step() {
 			bad.Head.Fee++
 		case 3: // signature bit flip
 			bad.Sig[t.Int("forge-sig-byte", 64)] ^= 1 << t.Draw("forge-sig-bit", 8)
+		case 4: // the publisher's header and signature with a transaction withheld (needs no key)
+			k := t.Int("forge-drop", len(bad.Txns))
+			bad.Txns = append(append([]model.Txn{}, bad.Txns[:k]...), bad.Txns[k+1:]...)
+			c.Count("fault.body_swapped_under_genuine_header")
+		case 5: // ... with the transactions reordered, or the only one doubled
+			if len(bad.Txns) >= 2 {
+				bad.Txns[0], bad.Txns[len(bad.Txns)-1] = bad.Txns[len(bad.Txns)-1], bad.Txns[0]
+			} else {
+				bad.Txns = append(bad.Txns, bad.Txns[0])
+			}
+			c.Count("fault.body_swapped_under_genuine_header")
+		case 6: // ... with the body of the following block
+			if head+1 < len(s.chain) {
+				bad.Txns = append([]model.Txn{}, s.chain[head+1].Txns...)
+			} else {
+				bad.Txns = nil
+			}
+			c.Count("fault.body_swapped_under_genuine_header")
 		}
 		if t.Bool("forged-first") {
 			bs = append(bs, bad, good)
